@@ -30,6 +30,11 @@ func (vc *VC) atReturnTop(f *frame, vals []Term) {
 	if con == nil {
 		return
 	}
+	if f.reach.S == "false" {
+		// the recover block (entered only by a panic, whose absence is proved by the safety obligations)
+		// or code after a noreturn call: nothing to establish, and source names are not in scope there
+		return
+	}
 	sig := f.fn.Signature
 	var res []TV
 	for i, v := range vals {
@@ -59,6 +64,31 @@ func (vc *VC) atReturnTop(f *frame, vals []Term) {
 			}
 		}
 		return TV{}, false
+	}
+	// `callsite return: assert e`: an assertion at every return in which the function's own variables
+	// (not only parameters and results) are visible; it is not part of the contract callers see
+	if f.depth == 0 {
+		for _, cs := range con.Callsites {
+			if cs.Callee != "return" || !f.modeOK(cs.Assert.Mode) {
+				continue
+			}
+			env2 := *env
+			env2.lookup = func(name string) (TV, bool) {
+				if tv, ok := env.lookup(name); ok {
+					return tv, true
+				}
+				return inner(name)
+			}
+			// checked at every return where the variables it names are in scope (an early return that
+			// precedes their declaration is skipped; a clause in scope nowhere is reported as unbound)
+			cond, ok := f.tryEvalClause(cs.Assert, &env2)
+			if !ok {
+				continue
+			}
+			vc.curGroup = cs.Assert.Group
+			f.obligeNoAssume("exit", fmt.Sprintf("at return: %s", cs.Assert.Text), cs.Assert.Props, f.curInstr().Pos(), cond)
+			vc.callsiteHits[cs.Assert.Src]++
+		}
 	}
 	for k, e := range con.Ensures {
 		if !f.modeOK(e.Mode) {
